@@ -48,12 +48,13 @@ TRUSTED = ['hand-written model lean/PydlVerif/Model/Combine.lean (+ Model/Interp
            'stream c1f:iterfit compares every real iterfit call with the modelled one (breakpoints bit-exact, both masks exact)',
            'numpy argsort (a sorting permutation, validated by the driver), scipy medfilt window median, numpy mean, scipy erf, np.isfinite: parameters',
            'oracle: direct Python restatement of the statement (bisect-based bracketing, own linear interpolation), metamorphic re-runs of the real code']
-ASSUMPTIONS = ['float64, C-contiguous inputs; finite values; objivar >= 0; wavelengths strictly increasing within each spectrum',
+ASSUMPTIONS = ['float64 inputs for the model (integer-valued flux in int32/int64 arrays and stacked exposures that are not C-contiguous are handed to the real code with the same values: same answer required); finite values; objivar >= 0; wavelengths strictly increasing within each spectrum',
                'stacked exposures have at least 101 good pixels each (fewer: the width-101 median refuses even counts)',
                'EPS slack of the code: an output pixel within 2^-23 of a gap length from a good input pixel next to a bad one is not '
                'required to be 0 (stated in newivar_zero_bad_bracket)',
                'scaling law: inverse variances stay well above EPS = 2^-23 (the code treats |smooth(newivar,3)| < EPS as no data)',
-               'finalmask / indisp / skyflux keywords are not covered (they do not influence the two returned arrays)',
+               'finalmask / indisp / skyflux keywords are not inputs of the model (they feed the pixel-mask / dispersion / sky bookkeeping only); stream c1f:kwargs '
+               'checks on the real code that the two returned arrays are bit-identical with and without them and that the call returns whenever the plain call does',
                'flux-scaling theorems: objivar given, c > 0, homogeneous kernels (KernelScale, window median, mean), exact field; '
                'constant theorems: the LAPACK pair returns the unique solution of a factored system (SolveUnique), argsort is a sorting permutation, '
                'wavelengths pairwise different inside every group of good pixels']
